@@ -143,10 +143,47 @@ def smallest_search(case):
     return False, f"{tried} boundary-valued arrays of dtype {src} all kept their values"
 
 
+def safe_cast_search(case):
+    """guided search for _safe_cast: boundary-valued arrays of the case's source dtype cast to its target dtype,
+    through the compiled function (if in sync with the .pyx) and through the extracted text"""
+    import itertools
+    import numpy as np
+    from replayers.common import run_search
+    src, dst = case.split("[")[1].rstrip("]").split("->")
+    si, di = np.iinfo(src), np.iinfo(dst)
+    pool = sorted({v for b in (7, 8, 15, 16, 31, 32, 63, 64) for v in (2 ** b - 1, 2 ** b, -2 ** b - 1, -2 ** b)} | {0, 1, -1})
+    pool = [v for v in pool if si.min <= v <= si.max]
+    ins = [[]] + [list(c) for n in (1, 2) for c in itertools.product(pool, repeat=n)]
+
+    def compiled(d):
+        from biotite.structure.io.pdbx.encoding import _safe_cast
+        try:
+            out = _safe_cast(np.array(d, dtype=src), np.dtype(dst))
+        except ValueError:
+            return {"outcome": "raise", "exception": "ValueError"}
+        return {"outcome": "return", "value": [int(x) for x in out], "dtype": str(out.dtype)}
+
+    def oracle(d, out):
+        fits = all(di.min <= x <= di.max for x in d)
+        if out.get("outcome") == "raise":
+            return None if not fits and out.get("exception") == "ValueError" else f"raised {out.get('exception')} although every value fits {dst}"
+        if out.get("outcome") != "return":
+            return None          # engine could not run it: no verdict
+        if not fits:
+            return f"returned {out['value']} although a value does not fit {dst} (ValueError expected)"
+        return None if out["value"] == d else f"cast to {out['value']}"
+    return run_search(ENC, ENC + "::_safe_cast", ins, lambda d: [{"array": d, "ctype": src, "memview": False}, {"dtype": dst}], oracle,
+                      compiled_call=compiled, label="_safe_cast")
+
+
 def main():
     rec = json.load(open(sys.argv[1]))
     try:
         case = rec["case"]
+        if "_safe_cast" in case:
+            rep, detail = safe_cast_search(case)
+            finish(rep, detail)
+            return
         if "_to_smallest_integer_type" in case:
             rep, detail = smallest_search(case)
             finish(rep, detail)
